@@ -178,11 +178,106 @@ def run(ctx) -> Result:
     res.check(st == "ok" and w.raw_dataset(sp) == want, "U5", "Dataset.sub_problem_from_ids",
               proj.method(w.D, "sub_problem_from_ids").loc(), ok_detail="ids decoded through the dataset's own id map",
               bad_detail=f"ids {ids} ({keep}) give {w.raw_dataset(sp) if st == 'ok' else sp}, expected {want}")
+    check_independence(res, proj, "U6")
+    check_wide(res, proj, "U5")
+    check_flags_many(res, proj, "U2")
+    res.explored_threshold = 25
     from . import C10
     C10.check_unified(res, proj, "U5")
     res.not_decided.append("value-level agreement of the views for histories longer than the explored bound (each step "
                            "re-establishes the invariants from the rankings alone, which is what the bound exercises)")
     return res
+
+
+INDEPENDENCE_STARTS = [
+    ("complete", [[{1}, {2, 3}, {4}], [{4}, {3}, {2}, {1}], [{2, 1}, {3, 4}]]),
+    ("incomplete", [[{1}, {2, 3}], [{3}, {1}], [{4}], [{2}, {1, 4}]]),
+    ("complete-strings", [[{"a"}, {"b"}, {"c"}], [{"c", "b"}, {"a"}]]),
+]
+
+
+def check_independence(res: Result, proj: Project, rule: str):
+    """A derived dataset (unification, projection) and its source are separate objects: mutating one through its public
+    API leaves the other exactly as it was, with its invariants."""
+    w = World(proj)
+    res.rule(rule, "derived datasets (unified, projected) and their source do not share state: a mutation of one leaves "
+                   "the other unchanged and consistent", 4)
+    ud_f = proj.method(w.D, "unified_dataset")
+    for label, raws in INDEPENDENCE_STARTS:
+        as_int = all_intlike(raws)
+        uni = sorted({x for r in raws for b in r for x in b}, key=repr)
+        victim = uni[0]
+        for derive, loc in (("unified_dataset", ud_f.loc()), ("sub_problem_from_elements", proj.method(w.D, "sub_problem_from_elements").loc())):
+            for mutate_source in (True, False):
+                st, d = w.safe("Dataset()", w.dataset, raws)
+                for view in ("get_positions", "get_bucket_ids"):
+                    w.safe(view, w.call, d, view)
+                if derive == "unified_dataset":
+                    st, der = w.safe(derive, w.call, d, derive)
+                else:
+                    st, der = w.safe(derive, w.call, d, derive, {w.element(x) for x in uni})
+                probs = []
+                if st != "ok":
+                    probs.append(f"{derive} raised {der}")
+                else:
+                    for view in ("get_positions", "get_bucket_ids"):
+                        w.safe(view, w.call, der, view)
+                    mutated, other = (d, der) if mutate_source else (der, d)
+                    before = w.snapshot(other)
+                    st2, _r = w.safe("remove_elements", w.call, mutated, "remove_elements", {w.element(victim)})
+                    if st2 != "ok":
+                        probs.append(f"remove_elements raised {_r}")
+                    else:
+                        who = "the derived dataset" if mutate_source else "the source dataset"
+                        if w.snapshot(other) != before:
+                            probs.append(f"{who} changed when the other one was mutated")
+                        probs.extend(p_ for p_ in w.dataset_problems(other, who))
+                        probs.extend(p_ for p_ in w.dataset_problems(mutated, "the mutated dataset"))
+                res.check(not probs, rule, f"Dataset.{derive}:{label}:mutate-{'source' if mutate_source else 'derived'}", loc,
+                          ok_detail="the other dataset keeps its rankings, id maps, flags and matrices",
+                          bad_detail=(f"start {raws}: {derive}(), then remove_elements({{{victim!r}}}) on the "
+                                      f"{'source' if mutate_source else 'derived dataset'}: {'; '.join(probs[:2])}") if probs else "")
+
+
+def check_flags_many(res: Result, proj: Project, rule: str, max_m: int = 26):
+    """Completeness / tie flags and sizes of datasets of m = 1..max_m rankings (complete ones, and the same with one
+    element missing from one ranking): the flags must not depend on how many rankings there are."""
+    w = World(proj)
+    bad = None
+    perms = [[{1}, {2}, {3}], [{2}, {3}, {1}], [{3}, {1}, {2}], [{1}, {3}, {2}]]
+    for m in range(1, max_m + 1):
+        for variant in ("complete-permutations", "complete-with-ties", "one-element-missing-once"):
+            raws = [[set(b) for b in perms[k % len(perms)]] for k in range(m)]
+            if variant == "complete-with-ties":
+                raws[-1] = [{1, 2}, {3}]
+            if variant == "one-element-missing-once":
+                if m == 1:
+                    continue
+                raws[m // 2] = [{1}, {2}]
+            st, d = w.safe("Dataset()", w.dataset, raws)
+            if st != "ok":
+                bad = bad or (m, variant, f"constructor raised {d}")
+                continue
+            got = (bool(w.call(d, "is_complete")), bool(w.call(d, "without_ties")), w.call(d, "nb_rankings"), w.call(d, "nb_elements"))
+            want = (variant != "one-element-missing-once", variant != "complete-with-ties", m, 3)
+            if got != want:
+                bad = bad or (m, variant, f"(is_complete, without_ties, nb_rankings, nb_elements) = {got}, expected {want}")
+    res.check(bad is None, rule, f"Dataset:flags-for-1-to-{max_m}-rankings", proj.method(w.D, "_analyse_rankings").loc(),
+              ok_detail=f"flags and sizes correct for every number of rankings from 1 to {max_m} (3 variants each)",
+              bad_detail=f"{bad[0]} rankings ({bad[1]}): {bad[2]}" if bad else "")
+
+
+def check_wide(res: Result, proj: Project, rule: str):
+    """Matrices of a dataset with many buckets / many elements (130 singleton buckets, a 130-element bucket): the
+    entries must hold whatever bucket index occurs (array element types included)."""
+    w = World(proj)
+    n = 130
+    raws = [[{i} for i in range(n)], [{i for i in range(n)}], [{i} for i in reversed(range(n))]]
+    st, d = w.safe("Dataset()", w.dataset, raws)
+    probs = [f"constructor raised {d}"] if st != "ok" else w.dataset_problems(d, "wide dataset")
+    res.check(not probs, rule, "Dataset:130-buckets", proj.method(w.D, "get_bucket_ids").loc(),
+              ok_detail="positions / bucket ids of a 130-bucket ranking and a 130-element bucket agree with the rankings",
+              bad_detail=f"dataset of {n} singleton buckets, one {n}-element bucket and the reversed order: {'; '.join(p_[:300] for p_ in probs[:2])}")
 
 
 PROJECTION_DATASETS = [
